@@ -597,6 +597,72 @@ def symbolic_returns(fn: ast.AST, max_paths: int = 256
     return out
 
 
+def symbolic_effects(fn: ast.AST, max_paths: int = 256
+                     ) -> List[Tuple[List[Tuple[ast.expr, bool]], Dict[str, ast.AST]]]:
+    """For every path ENTRY -> EXIT/return of a loop-free function: the branch tests taken and
+    the final symbolic values of everything assigned on the path -- local names and attribute
+    targets (`self.x`, keyed by their source text), with earlier assignments substituted."""
+    import copy
+    cfg = CFG(fn)
+    for n in cfg.nodes:
+        if n.kind in ("while", "for"):
+            raise AnalysisError("symbolic_effects: function has a loop")
+    out: List[Tuple[List[Tuple[ast.expr, bool]], Dict[str, ast.AST]]] = []
+
+    class _S(ast.NodeTransformer):
+        def __init__(self, env):
+            self.env = env
+
+        def visit_Name(self, node):
+            if isinstance(node.ctx, ast.Load) and node.id in self.env:
+                return copy.deepcopy(self.env[node.id])
+            return node
+
+        def visit_Attribute(self, node):
+            if isinstance(node.ctx, ast.Load):
+                k = ast.unparse(node)
+                if k in self.env:
+                    return copy.deepcopy(self.env[k])
+            return self.generic_visit(node)
+
+    def sub(e, env):
+        return ast.fix_missing_locations(_S(env).visit(copy.deepcopy(e)))
+
+    def go(nid, env, conds, seen):
+        if nid in seen or nid == RAISE:
+            return
+        if nid == EXIT:
+            if len(out) >= max_paths:
+                raise AnalysisError("symbolic_effects: too many paths")
+            out.append((conds, env))
+            return
+        node = cfg.nodes[nid]
+        seen = seen + (nid,)
+        st = node.stmt
+        if node.kind == "stmt" and isinstance(st, (ast.Assign, ast.AnnAssign)) and \
+                st.value is not None:
+            tgs = st.targets if isinstance(st, ast.Assign) else [st.target]
+            val = sub(st.value, env)
+            env = dict(env)
+            for tg in tgs:
+                if isinstance(tg, (ast.Name, ast.Attribute)):
+                    env[ast.unparse(tg)] = val
+        elif node.kind == "stmt" and isinstance(st, ast.AugAssign) and isinstance(
+                st.target, (ast.Name, ast.Attribute)):
+            env = dict(env)
+            k = ast.unparse(st.target)
+            cur = env.get(k, copy.deepcopy(st.target))
+            env[k] = ast.BinOp(left=cur, op=st.op, right=sub(st.value, env))
+        for s_ in sorted(cfg.succ[nid]):
+            lab = cfg.label.get((nid, s_))
+            if node.kind == "if" and lab in ("T", "F") and node.expr is not None:
+                go(s_, env, conds + [(sub(node.expr, env), lab == "T")], seen)
+            else:
+                go(s_, env, conds, seen)
+    go(ENTRY, {}, [], ())
+    return out
+
+
 def symbolic_block(stmts: List[ast.stmt], max_paths: int = 256):
     """symbolic_returns for a statement list (e.g. the body of a loop): loop-carried variables
     and everything defined outside stay free names. A path that falls off the end of the block
